@@ -224,4 +224,7 @@ def gen_sections(rng, n):
             entries.append([path, rng.choice(["", "sha256:", "md5:"]) + rstr(rng, hexd, L, L)])
         text = BASE00 + "[checksums]\n" + "".join("%s = %s\n" % (p, v) for p, v in entries) + "\n"
         cases.append({"text": text, "entries": entries, "legacy00": True})
+    for i, c in enumerate(cases):
+        if not c.get("legacy00") and i % 4:
+            c["reuse"] = i % 4            # the reading object has a history (docs_treeinfo.impl_load_text)
     return cases
